@@ -111,6 +111,11 @@ theorem alloc_le_size_or_same {m : PMap w V} (h : m.Inv) (op : Op w V) :
   | modify q f => exact Nat.le_max_left _ _
   | remove q => exact Nat.le_max_left _ _
   | removeKeepTree q => exact Nat.le_max_left _ _
+  | removeChildren q =>
+    simp only [Op.apply, PMap.removeChildren]
+    split
+    · exact Nat.le_max_right _ _
+    · split <;> exact Nat.le_max_left _ _
   | retain f stop => simp only [Op.apply, retain_alloc]; omega
   | clear => exact Nat.le_max_right _ _
   | collect xs =>
